@@ -263,6 +263,40 @@ def r5(ctx, retsets):
                       key="C05.R5:%s" % fname)
 
 
+def r5_purge_asks_for_reset(ctx, retsets):
+    """wherever the protocol code throws the socket's records away (expiry, stop, a roll-back that could not be completed), the socket
+    no longer holds what its session and serial stand for: on every path through such a purge the function leaves with
+    request_session_id set, so that the next query is a Reset Query"""
+    pdb = ctx.pdb
+    n = 0
+    for fn in pdb.all_functions():
+        if not fn.unit.startswith("rtrlib/rtr/"):
+            continue
+        purges = [c for c in fn.calls("pfx_table_src_remove")
+                  if vf.expr(fn, c.args[0])[0] == "load" and vf.last_field(vf.expr(fn, c.args[0])[1]) == "rtr_socket.pfx_table"]
+        if not purges:
+            continue
+        ctx.touch(fn)
+        ids = {id(c) for c in purges}
+
+        def cl(inst, E, st, ids=ids):
+            if id(inst) in ids:
+                return ["=purged:%d" % inst.line]
+            if inst.op == "store" and vf.store_field(inst) == "rtr_socket.request_session_id":
+                return ["=rs:%s" % flow.av_single(E.val(inst["val"]))]
+            return None
+        outs, fl = es.count_effects(fn, pdb, cl, retsets, cap=64)
+        sel = [o for o in outs if o["counts"].get("purged")]
+        bad = [o for o in sel if o["counts"].get("rs") != "1"]
+        n += 1
+        ctx.check(bool(sel) and not bad, "C05.R5", "%s:purge-asks-for-reset" % fn.name, purges[0].loc(),
+                  "%d paths through a purge of the socket's records, all leave with request_session_id = true" % len(sel) if not bad else
+                  "a path through the purge at line %s returns with request_session_id %s: the next query would be a Serial Query for data the socket no longer holds" % (
+                      bad[0]["counts"].get("purged"), {"0": "cleared", None: "untouched"}.get(bad[0]["counts"].get("rs"), bad[0]["counts"].get("rs"))),
+                  key="C05.R5:purge-reset:%s" % fn.name)
+    ctx.floor("C05.R5", n, 3)
+
+
 def _same_region(fn, a, b):
     """b executes on every path that executes a (same control region): mutual dominance / post-dominance"""
     if a.block.id == b.block.id:
@@ -361,6 +395,7 @@ def check(ctx):
     r3(ctx, retsets)
     r4(ctx, retsets)
     r5(ctx, retsets)
+    r5_purge_asks_for_reset(ctx, retsets)
     r5_error_codes(ctx, retsets)
     r6(ctx, retsets)
     from specs import C03
@@ -422,4 +457,7 @@ WITNESSES = [
     {"id": "C05.w-no-data-is-fatal-within-a-session", "rule": "C05.R5", "file": PK,
      "old": "\t\tRTR_DBG1(\"No data available\");\n\t\trtr_change_socket_state(rtr_socket, RTR_ERROR_NO_DATA_AVAIL);",
      "new": "\t\tRTR_DBG1(\"No data available\");\n\t\tif (rtr_socket->request_session_id)\n\t\t\trtr_change_socket_state(rtr_socket, RTR_ERROR_NO_DATA_AVAIL);\n\t\telse\n\t\t\trtr_change_socket_state(rtr_socket, RTR_ERROR_FATAL);"},
+    {"id": "C05.w-purge-after-failed-undo-keeps-the-session", "rule": "C05.R5", "file": "rtrlib/rtr/packets.c",
+     "old": "\t\t\t\t\t\tspki_table_src_remove(rtr_socket->spki_table, rtr_socket);\n\t\t\t\t\t\trtr_socket->request_session_id = true;",
+     "new": "\t\t\t\t\t\tspki_table_src_remove(rtr_socket->spki_table, rtr_socket);"},
 ]
